@@ -62,6 +62,14 @@ Proof.
   replace (Derive (fun x0 : R => f x0) x) with l; [ring|]. symmetry; apply is_derive_unique; exact D.
 Qed.
 
+(* chain rule on plain reals (no canonical-structure noise) *)
+Lemma is_derive_comp_R (f g : R -> R) (x lf lg : R) :
+  is_derive f (g x) lf -> is_derive g x lg -> is_derive (fun t => f (g t)) x (lg * lf).
+Proof.
+  intros Df Dg. pose proof (is_derive_comp f g x lf lg Df Dg) as D.
+  unfold scal in D; simpl in D; unfold mult in D; simpl in D. exact D.
+Qed.
+
 (* ---- separable sums ---- *)
 Lemma grad_sepsum (phi dphi : nat -> R -> R) (x : list R) :
   (forall k, (k < length x)%nat -> is_derive (phi k) (nth k x 0) (dphi k (nth k x 0))) ->
